@@ -39,7 +39,7 @@ fn large_strategy(_t: Tier) -> BoxedStrategy<Mat> {
     (prop_oneof![2 => 90usize..=130, 1 => 990usize..=1100, 1 => 1usize..=20], prop_oneof![2 => 90usize..=130, 1 => 990usize..=1100, 1 => 1usize..=20], 0usize..=300)
         .prop_flat_map(|(rows, cols, cnt)| {
             // a few heavy lines so that weights reach two digits
-            (proptest::collection::vec((any::<u16>(), any::<u16>()), cnt), proptest::collection::vec((any::<bool>(), any::<u16>(), proptest::collection::vec(any::<u16>(), 9..=14)), 0..=2), Just((rows, cols)))
+            (proptest::collection::vec((any::<u16>(), any::<u16>()), cnt), proptest::collection::vec((any::<bool>(), any::<u16>(), prop_oneof![2 => proptest::collection::vec(any::<u16>(), 9..=14), 1 => proptest::collection::vec(any::<u16>(), 33..=80)]), 0..=2), Just((rows, cols)))
         })
         .prop_map(|(cells, heavy, (rows, cols))| {
             let mut set = BTreeSet::new();
@@ -76,6 +76,7 @@ fn check_roundtrip(m: &Mat, p: &mut Probe) -> Check {
     p.class_if(irregular, "irregular");
     p.class_if(m.rows >= 100 || m.cols >= 100, "three-digit-indices");
     p.class_if(rl.iter().chain(cl.iter()).any(|l| l.len() >= 10), "two-digit-weights");
+    p.class_if(rl.iter().chain(cl.iter()).any(|l| l.len() > 32), "weight>32");
     if empty_line || irregular {
         p.nontrivial();
     }
@@ -142,6 +143,13 @@ fn replacement() -> impl Strategy<Value = String> {
         Just("1000001".to_string()),
         Just("-1".to_string()),
         Just("+3".to_string()),
+        // other spellings of numbers the parser's integer conversion accepts
+        Just("00".to_string()),
+        Just("+0".to_string()),
+        Just("000".to_string()),
+        Just("-0".to_string()),
+        (1usize..20).prop_map(|x| format!("0{x}")),
+        (1usize..20).prop_map(|x| format!("+{x}")),
         Just("x".to_string()),
         Just("1.5".to_string()),
         Just("123456789012345678901234567890".to_string()),
@@ -433,7 +441,7 @@ pub fn property() -> Property {
             }),
             Box::new(Sub {
                 name: "roundtrip-large",
-                rule: "large sparse matrices (dimensions 90..=130 or 990..=1100, occasionally 1..=20, up to 300 random ones plus up to two rows/columns of weight 9..=14, insertion order random): indices of three and four digits, weights of two digits; same round-trip/format oracle",
+                rule: "large sparse matrices (dimensions 90..=130 or 990..=1100, occasionally 1..=20, up to 300 random ones plus up to two rows/columns of weight 9..=14 or 33..=80, insertion order random): indices of three and four digits, weights of two digits; same round-trip/format oracle",
                 cases: |t| t.pick(20_000, 600_000),
                 strategy: large_strategy,
                 check: check_roundtrip,
@@ -448,7 +456,7 @@ pub fn property() -> Property {
             }),
             Box::new(Sub {
                 name: "totality",
-                rule: "texts: valid alists (own writer) under 0..=3 token/line/byte-level mutations (delete/duplicate/replace token by 0, small numbers, 1000001, -1, +3, letters, 1.5, 30-digit and 2^64 numbers; drop/duplicate/swap lines; truncate at any byte; CRLF; tabs; trailing blanks), token soups behind a numeric header, raw digit/space/newline strings; declared dimensions kept <= 80 by construction; oracle: from_alist never panics, Ok(h) has the declared dimensions and in-range entries and re-writes to a text that parses to the same matrix, and any text the own strict reader accepts must be accepted with exactly that matrix; non-trivial = mutated text that gets past the header",
+                rule: "texts: valid alists (own writer) under 0..=3 token/line/byte-level mutations (delete/duplicate/replace token by 0, small numbers, other spellings (00, +0, 000, -0, 07, +7), 1000001, -1, +3, letters, 1.5, 30-digit and 2^64 numbers; drop/duplicate/swap lines; truncate at any byte; CRLF; tabs; trailing blanks), token soups behind a numeric header, raw digit/space/newline strings; declared dimensions kept <= 80 by construction; oracle: from_alist never panics, Ok(h) has the declared dimensions and in-range entries and re-writes to a text that parses to the same matrix, and any text the own strict reader accepts must be accepted with exactly that matrix; non-trivial = mutated text that gets past the header",
                 cases: |t| t.pick(1_000_000, 30_000_000),
                 strategy: text_strategy,
                 check: check_text,
